@@ -11,13 +11,13 @@ from ..cmp import close, tol_for
 from ..codec import dec
 from ..floxcall import eager_reduce, reduce_kwargs, to_dask
 from ..sched import OwnedScheduler, SchedulerInvoked
-from . import c02, c10
+from . import c02, c07, c10
 
 ID = "C12"
 RULE = (
     "Hypothesis over the configuration product: reductions (all) / scans x method {None, map-reduce, cohorts, blockwise} x "
     "engine x reindex {None, True, False} x labels numpy/dask (own chunking) x expected_groups given/absent, plus "
-    "xarray_reduce on chunked DataArrays / Datasets (numpy coordinate grouper, or dask grouper + expected_groups). "
+    "multi-grouper / binned calls (the C07 generator), xarray_reduce on chunked DataArrays / Datasets (numpy coordinate grouper, or dask grouper + expected_groups). "
     "Oracle: the API call is made with POISONED inputs (every block of the value array and of dask label arrays is a task "
     "that raises ChunkEvaluated) while a counting scheduler with quota 0 is installed through dask.config: any chunk "
     "evaluation or scheduler invocation during the call is a violation; the returned object must be a dask array (or an "
@@ -47,7 +47,10 @@ def poison(arr, chunks):
 
 @st.composite
 def cases(draw, tier="quick"):
-    kind = draw(st.sampled_from(["reduce", "reduce", "reduce", "scan", "xarray"]))
+    kind = draw(st.sampled_from(["reduce", "reduce", "reduce", "scan", "xarray", "multi"]))
+    if kind == "multi":
+        inner = draw(c07.cases(tier))
+        return {"kind": "multi", "inner": inner}
     if kind == "reduce":
         inner = draw(c02.reduce_cases(tier, nplans=1, max_n=14))
         # degenerate but legal: no requested label occurs in the data
@@ -138,7 +141,50 @@ def execute(case) -> Outcome:
         return exec_reduce(case["inner"], out)
     if kind == "scan":
         return exec_scan(case["inner"], out)
+    if kind == "multi":
+        return exec_multi(case["inner"], out)
     return exec_xarray(case, out)
+
+
+def exec_multi(inner, out):
+    """several groupers / bins (C07 cases) with poisoned inputs"""
+    from flox.core import groupby_reduce
+
+    arr = dec(inner["arr"])
+    bys = [dec(b) for b in inner["bys"]]
+    expected, isbin = c07.grouper_objects(inner)
+    plan = inner["plans"][0]
+    nb = arr.ndim - bys[0].ndim
+    kw = dict(func=inner["func"], expected_groups=expected, isbin=isbin, fill_value=fill_of(inner), engine=inner.get("engine"))
+    if plan.get("method") is not None:
+        kw["method"] = plan["method"]
+    if plan.get("reindex") is not None:
+        kw["reindex"] = plan["reindex"]
+    kinds = "+".join(g["kind"] for g in inner["groupers"])
+    out.label(f"func={inner['func']}", f"groupers={kinds}", f"bydask={plan['by_dask']}", f"method={plan.get('method')}")
+
+    def call():
+        parr = poison(arr, plan["chunks"])
+        pbys = bys
+        if plan.get("by_dask"):
+            pbys = [poison(b, [c if b.shape[i] != 1 else [1] for i, c in enumerate(plan["chunks"][nb:])]) for b in bys]
+        return groupby_reduce(parr, *pbys, **kw)
+
+    r, counting = guarded(call)
+    what = f"groupby_reduce({len(bys)} groupers: {kinds}, bydask={plan['by_dask']})"
+    if report_eval(out, r, counting, what):
+        if not is_lazy(r.value[0]):
+            out.add(("not-lazy", "groupby_reduce-multi"), f"{what}: returned {type(r.value[0]).__name__}")
+        else:
+            out.nontrivial = True
+            out.label("lazy")
+    return out
+
+
+def fill_of(inner):
+    from ..codec import unnum
+
+    return unnum(inner["fill_value"])
 
 
 def exec_reduce(inner, out):
